@@ -2,7 +2,7 @@
 import json
 import random
 
-from .. import casing, common as c, corpus, l2, translate, namebins, rs2lean
+from .. import casing, common as c, corpus, l2, translate, namebins, widebins, rs2lean
 
 THEOREMS = [("Sylvia.Thm.C03", "C03." + t) for t in
             ["at_most_one", "wrapper_accepts_encoded", "wrapper_ok_sound", "unknown_lists_all", "not_single_key_rejected"]] + \
@@ -159,6 +159,7 @@ def run(ctx):
                    outcome_histogram={"%s/%s" % k: v for k, v in sorted(stats.items())}, documents_by_domain=dstats)
     ctx.cov["traces_validated_against_impl"] += len(rows)
     namebins.stream(ctx)
+    widebins.stream(ctx)
     ctx.cov["rule"] = ("for every part and message of every generated program: the well-formed document and ~25 derived documents (unknown name, two keys, "
                        "duplicated key/field, non-object, bad body, wrong type, missing/extra/reordered fields, trailing bytes, name variants), each decoded by "
                        "the wrapper and by every part; distinct = distinct document texts")
